@@ -37,12 +37,47 @@ Theorem C12_axis1_column_j_is_slice_j : forall (K Sg T : Type) (epochs : K -> li
 Proof. exact @group3d_axis1_spec. Qed.
 Print Assumptions C12_axis1_column_j_is_slice_j.
 
-(* the nested list has the array's first two dimensions *)
+(* the nested list has the array's first two dimensions: n0 rows of n1 entries, in all three axis
+   modes.  [epochs] returns one table per row of the slice it is given (C13_epoch_count); this is
+   what makes an axis=0 row n1 long.  For axis=1 the zip-transposition is modelled by [transpose],
+   which reads n0 entries from each of the n1 per-column results. *)
+Theorem C12_axis01_shape : forall (K Sg T : Type) (cf : K -> Sg -> T) (dK : K) (dS : Sg) (dT : T)
+  (sigma : list nat) (spec : kwspec) (sigs : list (list Sg)) (n1 : nat),
+  length (group3d_axis01 cf dK dS dT sigma spec sigs n1) = length sigs /\
+  forall i, i < length sigs -> length (nth i (group3d_axis01 cf dK dS dT sigma spec sigs n1) []) = n1.
+Proof. exact @group3d_axis01_shape. Qed.
+Print Assumptions C12_axis01_shape.
+
+Theorem C12_axis0_shape : forall (K Sg T : Type) (epochs : K -> list Sg -> list T) (dK : K)
+  (sigma : list nat) (spec : kwspec) (sigs : list (list Sg)) (n1 : nat),
+  Permutation sigma (seq 0 (length sigs)) ->
+  (forall row, In row sigs -> length row = n1) ->
+  (forall k sl, length (epochs k sl) = length sl) ->
+  length (group3d_axis0 epochs dK sigma spec sigs) = length sigs /\
+  forall i, i < length sigs -> length (nth i (group3d_axis0 epochs dK sigma spec sigs) []) = n1.
+Proof. exact @group3d_axis0_shape. Qed.
+Print Assumptions C12_axis0_shape.
+
 Theorem C12_axis1_shape : forall (K Sg T : Type) (epochs : K -> list Sg -> list T) (dK : K) (dS : Sg) (dT : T)
   (sigma : list nat) (spec : kwspec) (sigs : list (list Sg)) (n1 : nat),
-  length (group3d_axis1 epochs dK dS dT sigma spec sigs n1) = length sigs.
-Proof. exact @group3d_axis1_length. Qed.
+  Permutation sigma (seq 0 n1) ->
+  length (group3d_axis1 epochs dK dS dT sigma spec sigs n1) = length sigs /\
+  forall i, i < length sigs -> length (nth i (group3d_axis1 epochs dK dS dT sigma spec sigs n1) []) = n1.
+Proof. exact @group3d_axis1_shape. Qed.
 Print Assumptions C12_axis1_shape.
+
+(* what [kw_for dK spec p] means in the theorems above: option argument not given -> the empty
+   option set for every slice; a dict or a one-element list -> shared by all slices; a list of
+   two or more -> the entry at the slice's position (row-major position i*n1+j for a 2-D list) *)
+Theorem C12_option_argument_forms : forall (K : Type) (dK : K) (spec : kwspec) (p : nat),
+  match spec with
+  | KwNone => kw_for dK spec p = dK
+  | KwOne k => kw_for dK spec p = k
+  | KwList [k] => kw_for dK spec p = k
+  | KwList l => kw_for dK spec p = nth p l dK
+  end.
+Proof. exact @kw_for_cases. Qed.
+Print Assumptions C12_option_argument_forms.
 
 Theorem C12_models_mirror : forall (Sg T : Type) (dS : Sg) (dT : T) (dfs : list (list T)) (sigs : list (list Sg)) (i j : nat),
   i < length sigs -> j < length (nth i sigs []) ->
